@@ -17,7 +17,8 @@ TECHNIQUE = "reaching-definition check on a statement CFG (signed exponent), lin
 CLAIM = ("Decides: K is raised to the signed integer as passed; all four stoichiometry dicts are scaled by the same non-negative factor and "
          "both pairs are swapped iff the factor was negative; the sum is netted per key over the union of keys with K multiplied; "
          "forward/backward constants satisfy kf/kb = K*c0^(nb-nf) in both arms with sides swapped for the backward reaction; "
-         "eliminate's reduction is total (has an initialiser).")
+         "eliminate's reduction is total (has an initialiser)."
+         ' Arm selection in scaling, addition and as_reactions (R7). Shared rule A1: no swapped same-named arguments at resolved in-package call sites.')
 DOES_NOT_DECIDE = "the number theory in eliminate/cancel; behaviour with inactive parts under addition (excluded by the statement)"
 ASSUMPTIONS = ["ArithmeticDict scalar multiplication scales every value (chempy/util/arithmeticdict.py, covered by its own tests)"]
 F1 = Fraction(1)
